@@ -50,6 +50,12 @@ def c05_matrix(seed, tier):
         # exhausted and refilled between two full writes, so the incremental update must carry them
         dict(kind='gauss', n_batch=40, n_live=40, n_points_min=6, seed=37 + s, mseed=s,
              runkw=dict(n_shell=800, n_eff=100, discard_exploration=True)),
+        # tiny live set: the unit-cube shell is emptied by transfers and REMOVED at the end of exploration, so the
+        # first stored bound is no longer the unit cube (fixed seeds: the situation depends on them)
+        dict(kind='gauss', smooth=True, n_live=10, n_update=1, n_batch=1, n_points_min=4, seed=0, mseed=0,
+             runkw=dict(n_eff=30, discard_exploration=False)),
+        dict(kind='two', smooth=True, n_live=10, n_update=1, n_batch=1, n_points_min=4, seed=0, mseed=0, blob='float',
+             runkw=dict(n_eff=30, discard_exploration=True)),
     ]
     if tier == 'thorough':
         for r in range(1, 4):
